@@ -2,6 +2,7 @@ CONSTANTS Families = {"one", "rsv"}  Bug = "NoRangeTest"  Emit = FALSE
   TwoFlags = {}
   TwoSizes = {}
   ThreeSizes = {}
+  HistLen = 2
 CONSTANT OneRsv <- MCOneRsvQuick
 INIT Init
 NEXT Next
